@@ -670,6 +670,24 @@ def execute(plan):
         return exec_c17(plan)
     if fam == 'c17-multi':
         return exec_c17_multi(plan)
+    if fam == 'c11-admit':
+        # one message written by the independent writer, alone in a stream, both scanning modes
+        from pybufrkit.decoder import Decoder, generate_bufr_message
+        from sim.observe import exc_info, quiet_std
+        quiet_std()
+        raw = bytes.fromhex(plan['items'][0]['hex'])
+        out = {}
+        for mode in ('full', 'info'):
+            try:
+                ms = list(generate_bufr_message(Decoder(), raw, info_only=(mode == 'info')))
+                out[mode] = [[_h(bytes(m.serialized_bytes)), len(m.serialized_bytes)] for m in ms]
+            except Exception as e:
+                out[mode] = {'exc': exc_info(e)}
+        return out
+    if fam == 'c17-admit':
+        from sim.observe import admit
+        r = admit({'hex': plan['items'][0]['hex']})
+        return {'full_ok': 'full' in r, 'info_ok': 'info' in r, 'info_error': r.get('info_error')}
     raise ValueError(fam)
 
 
@@ -1144,6 +1162,23 @@ def oracle(plan, tr):
             return [{'property': 'C12', 'clause': 'C12.b-bytes'}]
         if plan['knobs'].get('compiled') is None and any(d[k] != it['adm'][k] for k in ('v', 'l', 'k')):
             return [{'property': 'C12', 'clause': 'C12.b-values'}]
+        return []
+    if fam == 'c11-admit':
+        raw = bytes.fromhex(plan['items'][0]['hex'])
+        out = []
+        for mode in ('full', 'info'):
+            r = tr[mode]
+            if isinstance(r, dict):
+                out.append({'property': 'C11', 'clause': 'C11.a-valid-message-not-delivered', 'mode': mode,
+                            'exc_type': r['exc']['type'], 'raise_site': r['exc']['site']})
+            elif r != [[_h(raw), len(raw)]]:
+                out.append({'property': 'C11', 'clause': 'C11.a-valid-message-not-delivered', 'mode': mode})
+        return out[:1]
+    if fam == 'c17-admit':
+        if tr['full_ok'] and not tr['info_ok']:
+            e = tr.get('info_error') or {}
+            return [{'property': 'C17', 'clause': 'C17.c-metadata-only-fails-where-full-decode-succeeds',
+                     'exc_type': e.get('type'), 'raise_site': e.get('site')}]
         return []
     if fam == 'c17':
         return oracle_c17(plan, tr)
